@@ -22,6 +22,7 @@ def nextBatch2 (P : Params) (file : List Nat) (f1 f2 off : Nat) : R (List Nat ×
     else if h.disc = FIRST then
       let t := trueUp P off'
       if t - off' > P.H then .err
+      else if !padZero file off' t then .err
       else match nextFrame P file f2 t with
         | .ok (h2, p2, off'') => if h2.disc = SECOND then .ok (p ++ p2, off'') else .err
         | _ => .err
@@ -89,7 +90,14 @@ theorem append_read_nopad (g : Good P) (pre buf suf : List Nat) (htf : buf.lengt
     simp only [FIRST, SECOND] at hframe2'
     have hnot : ¬ (q * P.B + P.B - (pre.length + (frame P 2 (List.take fb buf)).length) > P.H) := by
       have := hend; simp only [FIRST] at this; omega
-    simp only [htrue', hnot, if_false, hframe2', SECOND, if_true]
+    -- the padding between the two frames is the writer's zeros
+    have hpad : padZero (pre ++ (frame P FIRST (buf.take fb) ++ zeros z ++ frame P SECOND (buf.drop fb)) ++ suf)
+        (pre.length + (frame P FIRST (buf.take fb)).length) (q * P.B + P.B) = true :=
+      padZero_zeros _ (pre ++ frame P FIRST (buf.take fb)) (frame P SECOND (buf.drop fb) ++ suf) z _ _
+        (by simp) (by simp) (by simp only [List.length_append]; omega)
+    have hpad' := hpad
+    simp only [FIRST, SECOND] at hpad'
+    simp only [htrue', hnot, if_false, hpad', Bool.not_true, Bool.false_eq_true, hframe2', SECOND, if_true]
     congr 2
     · exact List.take_append_drop fb buf
     · have hend' := hend
@@ -130,8 +138,10 @@ theorem append_read_any (g : Good P) (pre buf suf : List Nat) (htf : buf.length 
     have hget : (pre ++ (zeros r ++ X) ++ suf)[pre.length]? = some 0 := by
       obtain ⟨r', rfl⟩ : ∃ r', r = r' + 1 := ⟨r - 1, by omega⟩
       simp [zeros, List.replicate_succ]
+    have hpad : padZero (pre ++ (zeros r ++ X) ++ suf) (pre.length + 1) (q * P.B + P.B) = true :=
+      padZero_zeros _ pre (X ++ suf) r _ _ (by simp) (by omega) (by omega)
     have hskip := nextHeader_padding g (pre ++ (zeros r ++ X) ++ suf) 1 pre.length q r
-      hget (by omega) (by omega) hr1 hrH (by omega)
+      hget (by omega) (by omega) hr1 hrH (by omega) hpad
     -- at the boundary the writer is not in the padding case: a whole block is left
     have hlen' : (pre ++ zeros r).length = q * P.B + P.B := by simp [zeros_length]; omega
     have hnb2 : nextBoundary P (q * P.B + P.B) = (q + 1) * P.B + P.B :=
